@@ -1,4 +1,5 @@
 """C02 - Block renders show exactly the image's pixels (colour and transparency)."""
+from .render_data import *
 from .render_block import *
 
 TRUSTED = ["direct-colour terminal: SGR 38;2 / 48;2 set foreground / background, SGR 0 resets; U+2580 shows fg over bg, U+2584 bg over fg, space shows bg",
